@@ -8,7 +8,35 @@ TRUSTED_BASE = [
     "the Go harness (/verif/harness): generators, spy/fault wrappers, canonicaliser, oracles",
 ]
 
+LAYER_ASSUME = ["every method of PrefixFS/VolumeFS/HiddenFS (except HiddenFS.RemoveAll and listings) issues at most one base call, namely `translate`'s: checked on every run by the layers stream with a spy base",
+                "paths are valid UTF-8; linux (filepath.VolumeName is always empty)"]
+
 PROPS = {
+    "C05": {
+        "theorems": ["prefix_confines", "symlink_target_confined_partial", "symlink_target_confined_full_fails", "rejected_is_escape", "escaping_name_rejected"],
+        "streams": [{"name": "layers"}],
+        "assumptions": LAYER_ASSUME + ["OS-level confinement after symlinks already inside the prefix are moved (Rename) is not covered by a theorem"],
+    },
+    "C06": {
+        "theorems": ["isHidden_complete", "isHidden_complete_comparable", "hidden_never_delegated", "hidden_refused", "rename_refused", "symlink_refused", "refusal_classes"],
+        "streams": [{"name": "layers"}],
+        "assumptions": LAYER_ASSUME,
+    },
+    "C14": {
+        "theorems": ["reroot_exact", "symlink_readlink_roundtrip_abs", "symlink_readlink_roundtrip_rel", "readlink_no_leak"],
+        "streams": [{"name": "layers"}],
+        "assumptions": LAYER_ASSUME,
+    },
+    "C15": {
+        "theorems": ["isHidden_sound", "visible_of_outside", "nonhidden_delegates", "arguments_unchanged"],
+        "streams": [{"name": "layers"}],
+        "assumptions": LAYER_ASSUME,
+    },
+    "C18": {
+        "theorems": ["volume_identity", "readlink_cleaned", "names_pass_through"],
+        "streams": [{"name": "layers"}],
+        "assumptions": LAYER_ASSUME + ["the volume-platform half of the property cannot be executed on linux and is not claimed"],
+    },
     "C19": {
         "theorems": ["lessFPS_strict_total", "ancestor_less", "sortMost_child_before_ancestor",
                      "sortLeast_ancestor_before_child", "sortMost_unique", "sortLeast_unique",
